@@ -1,3 +1,327 @@
 package verifsim
 
-func (w *World) buildTemplateController() {}
+import (
+	"context"
+	"flag"
+	"fmt"
+	"math/rand"
+	"strings"
+	"time"
+
+	"github.com/go-logr/logr"
+	metav1 "k8s.io/apimachinery/pkg/apis/meta/v1"
+	"k8s.io/apimachinery/pkg/apis/meta/v1/unstructured"
+	"k8s.io/client-go/util/workqueue"
+	"sigs.k8s.io/controller-runtime/pkg/event"
+	"sigs.k8s.io/controller-runtime/pkg/reconcile"
+
+	corev1alpha1 "package-operator.run/apis/core/v1alpha1"
+	"package-operator.run/internal/apis/manifests"
+	"package-operator.run/internal/controllers/objecttemplate"
+	"package-operator.run/internal/dynamiccache"
+)
+
+// ObjectTemplate controller wiring (C18): the real GenericObjectTemplateController; reconciles are
+// triggered the way the manager would — through the real EnqueueWatchingObjects handler for changes of
+// cache-labelled objects of watched kinds, and through RequeueAfter timers.
+
+func (w *World) buildTemplateController() {
+	c := objecttemplate.NewObjectTemplateController(w.Client, w.Uncached, logr.Discard(), w.Dyn, w.Scheme, w.Store.RESTMapper(),
+		objecttemplate.ControllerConfig{OptionalResourceRetryInterval: 30 * time.Second, ResourceRetryInterval: 30 * time.Second})
+	c.SetEnvironment(&manifests.PackageEnvironment{Kubernetes: manifests.PackageEnvironmentKubernetes{Version: "v1.28.0"}})
+	w.Ctrls["tm"] = c
+}
+
+var KOT = func(name string) Key { return Key{pkoGroup, "ObjectTemplate", NS, name} }
+
+const tmplOK = `apiVersion: v1
+kind: ConfigMap
+metadata:
+  name: out
+data:
+  a: {{ .config.a | quote }}
+  b: {{ if hasKey .config "b" }}{{ .config.b | quote }}{{ else }}"unset"{{ end }}
+`
+
+const tmplOK2 = `apiVersion: v1
+kind: ConfigMap
+metadata:
+  name: out
+data:
+  a: {{ .config.a | quote }}
+  b: {{ if hasKey .config "b" }}{{ .config.b | quote }}{{ else }}"unset"{{ end }}
+  c: "two"
+`
+
+const tmplBad = `apiVersion: v1
+kind: ConfigMap
+metadata:
+  name: out
+data:
+  a: {{ .config.a | nosuchfunc }}
+`
+
+const tmplOtherNS = `apiVersion: v1
+kind: ConfigMap
+metadata:
+  name: out
+  namespace: other
+data:
+  a: {{ .config.a | quote }}
+  b: "unset"
+`
+
+// template classes: ok | ok2 (upper-cases a) | bad (unparsable) | targetOtherNS | sourceOtherNS | optionalFirst
+func newObjectTemplate(class string) *corev1alpha1.ObjectTemplate {
+	t := &corev1alpha1.ObjectTemplate{ObjectMeta: metav1.ObjectMeta{Name: "t1", Namespace: NS}}
+	srcA := corev1alpha1.ObjectTemplateSource{APIVersion: "v1", Kind: "ConfigMap", Name: "src-a",
+		Items: []corev1alpha1.ObjectTemplateSourceItem{{Key: ".data.a", Destination: ".a"}}}
+	srcB := corev1alpha1.ObjectTemplateSource{APIVersion: "v1", Kind: "ConfigMap", Name: "src-b", Optional: true,
+		Items: []corev1alpha1.ObjectTemplateSourceItem{{Key: ".data.b", Destination: ".b"}}}
+	t.Spec.Sources = []corev1alpha1.ObjectTemplateSource{srcA, srcB}
+	t.Spec.Template = tmplOK
+	switch class {
+	case "ok2":
+		t.Spec.Template = tmplOK2
+	case "bad":
+		t.Spec.Template = tmplBad
+	case "targetOtherNS":
+		t.Spec.Template = tmplOtherNS
+	case "sourceOtherNS":
+		t.Spec.Sources[0].Namespace = "other"
+	case "optionalFirst":
+		t.Spec.Sources = []corev1alpha1.ObjectTemplateSource{srcB, srcA}
+	}
+	return t
+}
+
+type tmWorld struct {
+	w       *World
+	pending map[Key]bool // templates enqueued by a trigger
+	timers  map[Key]bool // templates with a pending RequeueAfter timer
+	handler *dynamiccache.EnqueueWatchingObjects
+	class   string
+}
+
+// trigger feeds a change of object k through the real EnqueueWatchingObjects handler (only objects that
+// carry the cache label are visible to the dynamic cache's informers).
+func (tw *tmWorld) trigger(before, after map[string]any) {
+	vis := func(m map[string]any) *unstructured.Unstructured {
+		if m == nil {
+			return nil
+		}
+		u := &unstructured.Unstructured{Object: m}
+		if u.GetLabels()[cacheLbl] != "True" {
+			return nil
+		}
+		return u
+	}
+	b, a := vis(before), vis(after)
+	if b == nil && a == nil {
+		return
+	}
+	if b != nil && a != nil && b.GetResourceVersion() == a.GetResourceVersion() && b.GetUID() == a.GetUID() {
+		return // unchanged: no watch event
+	}
+	q := workqueue.NewTypedRateLimitingQueue(workqueue.DefaultTypedControllerRateLimiter[reconcile.Request]())
+	ctx := context.Background()
+	switch {
+	case b == nil:
+		tw.handler.Create(ctx, event.CreateEvent{Object: a}, q)
+	case a == nil:
+		tw.handler.Delete(ctx, event.DeleteEvent{Object: b}, q)
+	default:
+		tw.handler.Update(ctx, event.UpdateEvent{ObjectOld: b, ObjectNew: a}, q)
+	}
+	for q.Len() > 0 {
+		r, _ := q.Get()
+		tw.pending[Key{pkoGroup, "ObjectTemplate", r.Namespace, r.Name}] = true
+		q.Done(r)
+	}
+	q.ShutDown()
+}
+
+// env runs an environment action on key k and feeds the resulting change to the trigger logic.
+func (tw *tmWorld) env(k Key, f func()) {
+	before := tw.w.Store.Snapshot(k)
+	f()
+	after := tw.w.Store.Snapshot(k)
+	tw.trigger(before, after)
+	if k.Kind == "ObjectTemplate" {
+		tw.pending[k] = true // For(objectTemplate): the template's own changes enqueue it
+	}
+}
+
+func (tw *tmWorld) runPass(k Key) {
+	w := tw.w
+	delete(tw.pending, k)
+	delete(tw.timers, k)
+	// snapshot of every object the pass may touch, to feed its own writes back as triggers
+	keys := []Key{KCM("src-a"), KCM("src-b"), KCM("out"), {"", "ConfigMap", "other", "src-a"}, {"", "ConfigMap", "other", "out"}}
+	before := map[Key]map[string]any{}
+	for _, x := range keys {
+		before[x] = w.Store.Snapshot(x)
+	}
+	p := w.RunPass("tm", k)
+	for _, x := range keys {
+		tw.trigger(before[x], w.Store.Snapshot(x))
+	}
+	if p.Result.RequeueAfter > 0 || p.Err != nil {
+		tw.timers[k] = true
+	}
+	// For(objectTemplate) has no generation predicate: its own status / finalizer writes enqueue it again
+	if w.Store.Snapshot(k) != nil && p.Writes > 0 {
+		tw.pending[k] = true
+	}
+}
+
+// settle processes triggers and timers until nothing changes (timers of missing optional sources keep firing:
+// two consecutive write-free timer rounds end the loop).
+func (tw *tmWorld) settle() {
+	quiet := 0
+	for i := 0; i < 40 && quiet < 2; i++ {
+		before := tw.w.Store.rvSeq
+		for k := range tw.pending {
+			if tw.w.Store.Snapshot(k) != nil {
+				tw.runPass(k)
+			} else {
+				delete(tw.pending, k)
+			}
+		}
+		if len(tw.pending) == 0 {
+			for k := range tw.timers {
+				if tw.w.Store.Snapshot(k) != nil {
+					tw.runPass(k)
+				} else {
+					delete(tw.timers, k)
+				}
+			}
+		}
+		if tw.w.Store.rvSeq == before && len(tw.pending) == 0 {
+			quiet++
+		} else {
+			quiet = 0
+		}
+	}
+}
+
+func (tw *tmWorld) check(label string) {
+	w := tw.w
+	w.Emit(Event{Actor: "sim", Ev: "C18Check", Key: KOT("t1").String(), Args: map[string]any{"label": label, "class": tw.class,
+		"dynRefs": w.Dyn.Refs(), "templateRefs": countTemplateRefs(w), "pendingTimers": len(tw.timers)}})
+}
+
+func cmWith(name, key, val string) *unstructured.Unstructured {
+	u := Obj(gvkConfigMap, NS, name)
+	u.Object["data"] = map[string]any{key: val}
+	return u
+}
+
+func init() {
+	extraDrivers["template-walk"] = func(w *World, _ *flag.FlagSet, a driverArgs) int {
+		classes := []string{"ok", "ok", "ok2", "optionalFirst", "bad", "targetOtherNS", "sourceOtherNS"}
+		for i := 0; i < a.n; i++ {
+			if i%a.shards != a.shard {
+				continue
+			}
+			seed := a.seed*100003 + int64(i)
+			rng := rand.New(rand.NewSource(seed))
+			class := classes[i%len(classes)]
+			w.AnnotationPhases = false
+			w.Reset(fmt.Sprintf("template-%s/seed=%d", class, seed))
+			tw := &tmWorld{w: w, pending: map[Key]bool{}, timers: map[Key]bool{}, class: class}
+			tw.handler = dynamiccache.NewEnqueueWatchingObjects(w.Dyn, &corev1alpha1.ObjectTemplate{}, w.Scheme)
+			w.Emit(Event{Actor: "sim", Ev: "Row", Key: "-", Args: map[string]any{"row": i, "class": class, "classes": map[string]any{}, "flavour": "tm", "hasDup": false}})
+			// some sources may pre-exist
+			if rng.Intn(2) == 0 {
+				tw.env(KCM("src-a"), func() { w.EnvCreate(cmWith("src-a", "a", "a0")) })
+			}
+			if class == "sourceOtherNS" {
+				u := cmWith("src-a", "a", "foreign")
+				u.SetNamespace("other")
+				w.EnvCreate(u)
+			}
+			tw.env(KOT("t1"), func() { w.EnvCreate(newObjectTemplate(class)) })
+			tw.settle()
+			tw.check("initial")
+			vals := 0
+			for step := 0; step < a.steps; step++ {
+				vals++
+				v := fmt.Sprintf("v%d", vals)
+				switch rng.Intn(9) {
+				case 0, 1:
+					k := KCM("src-a")
+					if w.Store.Snapshot(k) == nil {
+						tw.env(k, func() { w.EnvCreate(cmWith("src-a", "a", v)) })
+					} else {
+						tw.env(k, func() {
+							w.EnvMutate("EnvEdit", k, map[string]any{"tag": v}, func(m map[string]any) { m["data"] = map[string]any{"a": v} })
+						})
+					}
+				case 2, 3:
+					k := KCM("src-b")
+					if w.Store.Snapshot(k) == nil {
+						tw.env(k, func() { w.EnvCreate(cmWith("src-b", "b", v)) })
+					} else {
+						tw.env(k, func() {
+							w.EnvMutate("EnvEdit", k, map[string]any{"tag": v}, func(m map[string]any) { m["data"] = map[string]any{"b": v} })
+						})
+					}
+				case 4:
+					k := []Key{KCM("src-a"), KCM("src-b")}[rng.Intn(2)]
+					tw.env(k, func() { w.EnvDelete(k, false) })
+				case 5:
+					// somebody edits or deletes the output
+					k := KCM("out")
+					if rng.Intn(2) == 0 {
+						tw.env(k, func() { w.EnvDelete(k, false) })
+					} else {
+						tw.env(k, func() {
+							w.EnvMutate("EnvEdit", k, map[string]any{"tag": v}, func(m map[string]any) { m["data"] = map[string]any{"a": "tampered", "b": "tampered"} })
+						})
+					}
+				case 6:
+					// the user switches the template text
+					if class == "ok" || class == "ok2" {
+						tw.env(KOT("t1"), func() {
+							w.EnvMutate("EnvSetTemplate", KOT("t1"), map[string]any{"variant": 0}, func(m map[string]any) {
+								spec := nestedMap(m, "spec")
+								if spec["template"] == tmplOK {
+									spec["template"] = tmplOK2
+								} else {
+									spec["template"] = tmplOK
+								}
+							})
+						})
+					}
+				case 7:
+					if rng.Intn(4) == 0 {
+						w.Restart()
+						tw.pending[KOT("t1")] = true // a restarted manager reconciles every object once
+					}
+				}
+				if rng.Intn(2) == 0 {
+					tw.settle()
+					tw.check("mid")
+				}
+			}
+			tw.settle()
+			tw.check("final")
+			// deletion releases the watches
+			tw.env(KOT("t1"), func() { w.EnvDelete(KOT("t1"), false) })
+			tw.settle()
+			tw.check("deleted")
+		}
+		return 0
+	}
+}
+
+func countTemplateRefs(w *World) int {
+	n := 0
+	for _, r := range w.Dyn.Refs() {
+		if strings.Contains(r, "<- ObjectTemplate/") {
+			n++
+		}
+	}
+	return n
+}
